@@ -62,6 +62,11 @@ func checkC11(w *World, r *Recorder) propInfo {
 	r.Floor("C11-Q4", 23)
 	r.Floor("C11-Q6", 2)
 	r.Floor("C11-Q7", 1)
+	// Q8: "after success the getter returns that value" for as long as the
+	// object lives: what the setter stored is the object's own memory, never
+	// memory shared with other objects through a package-level variable
+	ruleSettersStoreOwnedMemory(w, r, "C11-Q8")
+	r.Floor("C11-Q8", 20)
 	return info
 }
 
